@@ -381,6 +381,49 @@ def sweeps(tier, rng):
                             if e > tol * (1 + 1e-6) + 1e-9: bad = "the quadratic for cubic %r (from %r) strays %.4g > max_err %g: %r" % (a, st, e, tol, b)
                     else: bad = "cubic became %s" % op
             yield (("pen", which, tol, aq, calls), bad)
-    return [Sweep("curves_to_quadratic", run_curves), Sweep("qu2cu", run_qu2cu), Sweep("glyphs_to_quadratic", run_glyphs), Sweep("cu2qu-pens", run_pens)]
+    def run_qu2cu_pen():
+        """Qu2CuPen over whole contours (quadratic splines with 1..4 off-curve points mixed with lines and cubics, both modes): the
+        drawn outline stays within max_err of the input, in both directions, and all_cubic leaves no quadratic behind"""
+        from fontTools.pens.qu2cuPen import Qu2CuPen
+        from fontTools.pens.recordingPen import RecordingPen
+        from fontTools.pens.basePen import BasePen
+        class Flat(BasePen):
+            def __init__(s): BasePen.__init__(s, None); s.v = []; s.cur = None
+            def _moveTo(s, p): s.cur = p
+            def _lineTo(s, p): s.v.append((s.cur, p)); s.cur = p
+            def _curveToOne(s, a, b, c): s.v.append((s.cur, a, b, c)); s.cur = c
+            def _qCurveToOne(s, a, b): s.v.append((s.cur, a, b)); s.cur = b
+            def _closePath(s): s.cur = None
+            def _endPath(s): s.cur = None
+        R = lambda: (float(rng.randint(-300, 300)), float(rng.randint(-300, 300)))
+        for i in range(N(tier, 60, 800) if tier != "search" else 200):
+            tol = rng.choice([0.5, 1.0, 2.0, 5.0]); allc = rng.chance(50); calls = []
+            for _c in range(rng.randint(1, 2)):
+                calls.append(("moveTo", (R(),)))
+                for _s in range(rng.randint(1, 5)):
+                    k = rng.below(10)
+                    if k < 6: calls.append(("qCurveTo", tuple(R() for _ in range(rng.randint(2, 5)))))
+                    elif k < 8: calls.append(("lineTo", (R(),)))
+                    else: calls.append(("curveTo", (R(), R(), R())))
+                calls.append(("closePath", ()) if rng.chance(60) else ("endPath", ()))
+            bad = None
+            try:
+                rec = RecordingPen(); pen = Qu2CuPen(rec, tol, all_cubic=allc)
+                for op, a in calls: getattr(pen, op)(*a)
+                a_ = Flat(); b_ = Flat()
+                for op, a in calls: getattr(a_, op)(*a)
+                rec.replay(b_)
+                ps = _polyline([tuple(s_) for s_ in a_.v], 24); pd = _polyline([tuple(s_) for s_ in b_.v], 120)
+                pd2 = _polyline([tuple(s_) for s_ in b_.v], 24); ps2 = _polyline([tuple(s_) for s_ in a_.v], 120)
+                w1 = max(_dist_to_polyline(p_, pd) for p_ in ps) if ps and pd else 0.0
+                w2 = max(_dist_to_polyline(p_, ps2) for p_ in pd2) if pd2 and ps2 else 0.0
+                if max(w1, w2) > tol * 1.05 + 0.05: bad = "Qu2CuPen(all_cubic=%r) strays %.4g / %.4g from the input (max_err %g): %r -> %r" % (allc, w1, w2, tol, calls, rec.value)
+                elif allc and any(op == "qCurveTo" for op, _ in rec.value): bad = "all_cubic=True left a quadratic: %r" % (rec.value,)
+                elif [op for op, _ in rec.value if op in ("moveTo", "closePath", "endPath")] != [op for op, _ in calls if op in ("moveTo", "closePath", "endPath")]: bad = "contour structure changed"
+            except Exception as e:
+                bad = "Qu2CuPen raised %r on %r" % (e, calls)
+            yield (("qu2cu-pen", tol, allc, calls), bad)
+    return [Sweep("curves_to_quadratic", run_curves), Sweep("qu2cu", run_qu2cu), Sweep("glyphs_to_quadratic", run_glyphs), Sweep("cu2qu-pens", run_pens),
+            Sweep("qu2cu-pen", run_qu2cu_pen)]
 
 def witness(fid): return None
